@@ -433,8 +433,29 @@ theorem temp_path_final_none {cfg : Cfg} {thr ch : Nat} {sfx : String} {hint : T
     (hσ : Interleaving (taskLists cfg thr ch sfx hint dst tasks) σ) {t : Task} (ht : t ∈ tasks)
     (hm : t.mayDelta) : applyAll σ w (tempOf sfx t.rel) = none := by
   have hind := taskLists_indep (cfg := cfg) (thr := thr) (ch := ch) hok hf hint dst
-  have hnl : isLinkTask cfg t = false := by
-    unfold isLinkTask; rw [hm.1]
+  -- an update of a member of a source hard-link group (`-H`) is not in the free interleaving: then
+  -- NO list touches its temp path
+  by_cases hnl : isLinkTask cfg t = true
+  · have hN := hσ.toShuffleN
+    rw [applyAll_frame σ w _ ?_]
+    · exact hf.notExisting t ht hm
+    · intro s hs
+      obtain ⟨L, hL, hsL⟩ := (hN.mem_iff s).mp hs
+      obtain ⟨t', ht', hnl', rfl⟩ := mem_taskLists hL
+      have hne : t'.rel ≠ t.rel := by
+        have htt : t' ≠ t := by intro h; rw [h, hnl] at hnl'; cases hnl'
+        obtain ⟨a, b, hab⟩ := List.append_of_mem ht
+        have hu := hok.uniq
+        rw [hab, List.pairwise_append] at hu
+        obtain ⟨_, h2, h3⟩ := hu
+        rw [hab] at ht'
+        simp only [List.mem_append, List.mem_cons] at ht'
+        rcases ht' with h | h | h
+        · exact h3 t' h t (by simp)
+        · exact absurd h htt
+        · exact Ne.symm ((List.pairwise_cons.mp h2).1 t' h)
+      exact temp_path_owned hok hf ht hm ht' hne _ _ s hsL
+  have hnl : isLinkTask cfg t = false := by simpa using hnl
   have htf : t ∈ tasks.filter fun t => !isLinkTask cfg t := List.mem_filter.mpr ⟨ht, by simp [hnl]⟩
   obtain ⟨a, b, hab⟩ := List.append_of_mem htf
   have hls : taskLists cfg thr ch sfx hint dst tasks =
